@@ -172,6 +172,12 @@ import random as _random      # noqa: E402
 from pyvc import models as M  # noqa: E402
 
 
+def entropy_of_draw(r, nbytes, api):
+    """the entropy that carries the drawn value losslessly: getrandbits(8 n) read big-endian IS the n OS bytes;
+    randbytes(n) hands the same value out little-endian (the OS bytes reversed): either way every OS bit is used once"""
+    return Rope([(r, nbytes, api == "randbytes")])
+
+
 def _draw_model(source):
     def m(ctx, selfv, args, kw):
         k = L.simplify_native(args[0] if args else kw.get("k"))
@@ -184,7 +190,7 @@ def _draw_model(source):
         n = len([e for e in ctx.effects if e[0] == "draw"])
         r = z3.Int(f"drawn!{n}")
         ctx.assume(z3.And(r >= 0, r < 2 ** k))
-        ctx.effects.append(("draw", (source, type(selfv).__name__, 0, 2 ** k, r), {}))
+        ctx.effects.append(("draw", (source, type(selfv).__name__, 0, 2 ** k, r, "getrandbits"), {}))
         return r
     m.always = True
     return m
@@ -203,12 +209,35 @@ def _randrange_model(source):
         n = len([e for e in ctx.effects if e[0] == "draw"])
         r = z3.Int(f"drawn!{n}")
         ctx.assume(z3.And(r >= lo, r < hi))
-        ctx.effects.append(("draw", (source, type(selfv).__name__, lo, hi, r), {}))
+        ctx.effects.append(("draw", (source, type(selfv).__name__, lo, hi, r, "randrange"), {}))
         return r
     m.always = True
     return m
 
 
+def _randbytes_model(source):
+    """Random.randbytes(n) = getrandbits(8 n).to_bytes(n, 'little') (CPython Lib/random.py): ONE draw of 8 n bits"""
+    def m(ctx, selfv, args, kw):
+        n = L.simplify_native(args[0] if args else kw.get("n"))
+        if is_sym(n) or isinstance(n, bool) or not isinstance(n, int) or len(args) + len(kw) != 1:
+            raise Undecided("randbytes call shape")
+        if n < 0:
+            raise PyRaise(ValueError, "negative argument not allowed")
+        k = len([e for e in ctx.effects if e[0] == "draw"])
+        r = z3.Int(f"drawn!{k}")
+        ctx.assume(z3.And(r >= 0, r < 2 ** (8 * n)))
+        ctx.effects.append(("draw", (source, type(selfv).__name__, 0, 2 ** (8 * n), r, "randbytes"), {}))
+        return Rope([(r, n, True)]) if n else b""
+    m.always = True
+    return m
+
+
+M.NATIVE_MODELS[(_random.SystemRandom, "randbytes", "inst")] = _randbytes_model("os.urandom")
+M.NATIVE_MODELS[(_random.Random, "randbytes", "inst")] = _randbytes_model("seedable Mersenne Twister")
+for _nm in ("random", "uniform", "choice", "choices", "shuffle", "sample", "triangular", "gauss", "betavariate", "expovariate"):
+    for _cls in (_random.SystemRandom, _random.Random):
+        M.NATIVE_MODELS[(_cls, _nm, "inst")] = (lambda nm: (lambda ctx, s_, a, k: (_ for _ in ()).throw(Undecided("random." + nm))))(_nm)
+        M.NATIVE_MODELS[(_cls, _nm, "inst")].always = True
 M.NATIVE_MODELS[(_random.SystemRandom, "getrandbits", "inst")] = _draw_model("os.urandom")
 M.NATIVE_MODELS[(_random.Random, "getrandbits", "inst")] = _draw_model("seedable Mersenne Twister")
 M.NATIVE_MODELS[(_random.SystemRandom, "randrange", "inst")] = _randrange_model("os.urandom")
@@ -277,10 +306,10 @@ class _MnemonicFromEntropyBits:
         yield "ensures.exactly_one_draw", len(draws) == 1
         if len(draws) != 1:
             return
-        source, cls, lo, hi, r = draws[0]
+        source, cls, lo, hi, r, api = draws[0]
         yield "ensures.source_is_SystemRandom", source == "os.urandom" and cls == "SystemRandom"
         yield "ensures.full_range_0_to_2_ENT", lo == 0 and hi == 2 ** bits
-        spec, idxs = spec_sentence(Rope([(r, bits // 8, False)]))
+        spec, idxs = spec_sentence(entropy_of_draw(r, bits // 8, api))
         words = [p for p in out.value.parts if isinstance(p, OStr)] if isinstance(out.value, SStr) else []
         yield "ensures.word_count", len(words) == bits * 3 // 32
         for j, (wj, ij) in enumerate(zip(words, idxs)):
